@@ -103,6 +103,10 @@ def make_symbolic(I, sh, name):
         p = I.fresh_int(name + '_pos')
         I.assume(p >= 0)
         return I.alloc(StreamCell(d, p))
+    if k in ('list', 'tuple') and isinstance(kw.get('len'), int):
+        # concrete spine of the given length (elements may be heap objects)
+        items = [make_symbolic(I, kw['elem'], '%s_%d' % (name, i)) for i in range(kw['len'])]
+        return I.alloc(ListCell(items=items)) if k == 'list' else tuple(items)
     if k == 'list':
         ek = shape_elem_kind(sh)
         return I.alloc(ListCell(t=I.fresh_const(name, ek.seqsort), ek=ek))
